@@ -56,8 +56,87 @@ pub fn run_check(context: &CheckContext) -> CheckOutcome {
             break;
         }
     }
+    if outcome.violations.is_empty() && context.tier == "thorough" && !seq_campaigns(&context.property).is_empty() && std::env::var("VERIF_NO_FUZZ").is_err() {
+        let main = &seq_campaigns(&context.property)[0];
+        let nt = main.nt;
+        let run_input = move |bytes: &[u8]| {
+            let case = crate::fuzzdec::seq_case_from_bytes(bytes);
+            (seq_case_result(&case, &crate::model::Policy::default(), nt), serde_json::to_value(&case).unwrap_or(Value::Null), "SEQ")
+        };
+        let (report, violation) = run_fuzz_campaign(context, "seq_history", 20_000, &run_input);
+        outcome.reports.push(report);
+        if let Some(violation) = violation { outcome.violations.push(violation); }
+    }
     if outcome.violations.is_empty() && matches!(context.property.as_str(), "C01" | "C04" | "C05" | "C07" | "C11") { return run_conc_check(context, outcome); }
     outcome
+}
+
+/// Coverage-guided campaign (thorough tier): runs a libFuzzer target of harness/fuzz in a subprocess with a fresh corpus,
+/// then re-runs the corpus it produced in-process to count distinct non-trivial cases. A crash artifact is decoded with
+/// the same byte decoder, re-run, and turned into an ordinary replay file.
+pub fn run_fuzz_campaign(context: &CheckContext, target: &str, runs: u64, run_input: &dyn Fn(&[u8]) -> (CaseResult, Value, &'static str)) -> (CampaignReport, Option<Violation>) {
+    let started = std::time::Instant::now();
+    let harness_dir = verif_dir().join("harness");
+    let work = harness_dir.join("fuzz").join("corpus").join(format!("{}-{}-{}", target, context.property, std::process::id()));
+    let artifacts = work.join("artifacts");
+    let corpus = work.join("corpus");
+    let _ = std::fs::create_dir_all(&artifacts);
+    let _ = std::fs::create_dir_all(&corpus);
+    let mut report = CampaignReport { name: format!("libfuzzer-{}", target), engine: "FUZZ".to_string(), ..CampaignReport::default() };
+    report.rule = format!("libFuzzer target `{}` (bytes decoded by hand into a structured case, semantic oracle inside the target, coverage instrumentation, no sanitizer: the crate has no unsafe), fresh empty corpus, -runs={} -seed={} -len_control=0 -max_len=400; afterwards every corpus file is re-run in-process: non-trivial by the same rule as the generated campaign, distinct by file content", target, runs, context.seed);
+    let output = std::process::Command::new("cargo")
+        .args(["+nightly", "fuzz", "run", "-s", "none", target, corpus.to_str().unwrap(), "--",
+            &format!("-runs={}", runs), &format!("-seed={}", context.seed.max(1)), "-len_control=0", "-max_len=400", "-print_final_stats=1",
+            &format!("-artifact_prefix={}/", artifacts.to_str().unwrap())])
+        .current_dir(&harness_dir)
+        .env("CARGO_NET_OFFLINE", "true")
+        .env("VERIF_FUZZ_PROPERTY", &context.property)
+        .output();
+    let mut violation = None;
+    match output {
+        Err(error) => { report.rule.push_str(&format!(" ;; NOT RUN: cannot start cargo fuzz: {}", error)); }
+        Ok(output) => {
+            let text = String::from_utf8_lossy(&output.stderr).to_string() + &String::from_utf8_lossy(&output.stdout);
+            let executed = text.lines().find_map(|line| line.strip_prefix("stat::number_of_executed_units:").map(|rest| rest.trim().parse::<u64>().unwrap_or(0))).unwrap_or(0);
+            report.evaluations = executed;
+            if executed == 0 && !text.contains("FUZZ-FAILURE") {
+                report.rule.push_str(" ;; NOT RUN: the fuzz target did not build or start (see stderr of `cargo +nightly fuzz build -s none`)");
+            }
+            // crash artifacts
+            if let Ok(entries) = std::fs::read_dir(&artifacts) {
+                for entry in entries.flatten() {
+                    if let Ok(bytes) = std::fs::read(entry.path()) {
+                        for _ in 0..3 {
+                            let (result, case, engine) = run_input(&bytes);
+                            if let Some(failure) = result.failure {
+                                if context.relevance(&failure) == Relevance::Violation {
+                                    let replay = Replay { property: context.property.clone(), engine: engine.to_string(), campaign: format!("libfuzzer-{}", target), seed: context.seed, case, policy: json!({}), failure: Some(failure.clone()), note: "found by libFuzzer; the artifact was decoded into this structured case (not minimised)".to_string() };
+                                    violation = Some(Violation { replay_path: write_replay(&replay), failure });
+                                    break;
+                                }
+                            }
+                        }
+                    }
+                    if violation.is_some() { break; }
+                }
+            }
+            // corpus statistics
+            let mut distinct = std::collections::HashSet::new();
+            if let Ok(entries) = std::fs::read_dir(&corpus) {
+                for entry in entries.flatten().take(4000) {
+                    if let Ok(bytes) = std::fs::read(entry.path()) {
+                        let (result, case, _) = run_input(&bytes);
+                        for (class, count) in &result.classes { *report.classes.entry(class.clone()).or_insert(0) += count; }
+                        if result.nontrivial && distinct.insert(crate::base::fnv1a(&bytes)) && report.samples.len() < 2 { report.samples.push(case); }
+                    }
+                }
+            }
+            report.distinct_nontrivial = distinct.len() as u64;
+        }
+    }
+    let _ = std::fs::remove_dir_all(&work);
+    report.wall_s = started.elapsed().as_secs_f64();
+    (report, violation)
 }
 
 pub struct ConcCampaign {
@@ -165,6 +244,15 @@ fn run_c14(context: &CheckContext, mut outcome: CheckOutcome) -> CheckOutcome {
     if let Some((case, failure)) = found {
         let replay = Replay { property: "C14".to_string(), engine: "SKETCH".to_string(), campaign: "streams".to_string(), seed: context.seed, case: serde_json::to_value(&case).unwrap(), policy: json!({}), failure: Some(failure.clone()), note: "shrunk by proptest".to_string() };
         outcome.violations.push(Violation { replay_path: write_replay(&replay), failure });
+    }
+    if outcome.violations.is_empty() && context.tier == "thorough" && std::env::var("VERIF_NO_FUZZ").is_err() {
+        let run_input = |bytes: &[u8]| {
+            let case = crate::fuzzdec::sketch_case_from_bytes(bytes);
+            (sketch_case_result(&case), serde_json::to_value(&case).unwrap_or(Value::Null), "SKETCH")
+        };
+        let (report, violation) = run_fuzz_campaign(context, "sketch", 40_000, &run_input);
+        outcome.reports.push(report);
+        if let Some(violation) = violation { outcome.violations.push(violation); }
     }
     outcome
 }
